@@ -24,9 +24,29 @@ def known_match(f, sc):
     return None
 
 
+class _Phys:
+    """second phase: the real binary on ids that are path prefixes of one another (direct layout) and ordinary ids
+    (hashed layouts); every operation judged for 'no other object changes, purge removes exactly the named object'"""
+    BUDGET = {"quick": dict(histories=40, ops=12, seconds=60), "thorough": dict(histories=400, ops=22, seconds=600)}
+    CORRESPONDENCE = "n/a (oracle-only phase)"
+    HISTORY_KW = dict(layouts=["0002-flat-direct-storage-layout", "0002-flat-direct-storage-layout", "0004-hashed-n-tuple-storage-layout",
+                               "0006-flat-omit-prefix-storage-layout", "0007-n-tuple-omit-prefix-storage-layout"],
+                      # ids that are path prefixes of one another (direct layout) and ids that the omit-prefix layouts map to one path
+                      ids=[["coll/2024/rep1", "coll/2024/rep2", "coll", "coll/2024"], ["a", "a/b/c", "a/b", "z"], ["x1", "x2", "x3"], ["deep/er/id", "deep", "other"],
+                           ["a:obj1", "b:obj1", "a:obj2", "c:obj1"], ["ns:one", "other:one", "ns:two"]],
+                      weights=[30, 3, 6, 3, 4, 2, 1, 38, 12, 1], trace=False)
+
+    @staticmethod
+    def make_oracles():
+        from vlib import physprop
+        return [physprop.OthersUntouched()]
+
+
 def run(rep, tier, seed, proof_broken=False):
     import vlib.props.C08 as me
     histprop.run(rep, me, tier, seed, proof_broken)
+    from vlib import physprop
+    physprop.run(rep, _Phys, tier, seed + 8, proof_broken)
 
 
 def replay(rep, payload):
